@@ -58,11 +58,12 @@ def _run_variant(args):
                     stream.write(_ast.unparse(_ast.parse(src)) + "\n")
             keys, errors = _keys(prop, tmp)
             return (v.name, "ran", ";".join(errors), keys)
-        if v.module in ("*rename", "*ifswap", "*nest", "*split", "*mirror"):   # whole-tree behaviour-preserving refactorings (sa/refactor.py)
+        if v.module in ("*rename", "*ifswap", "*nest", "*split", "*mirror", "*all"):   # whole-tree behaviour-preserving refactorings (sa/refactor.py)
             import glob as _glob
             from . import refactor
             transform = {"*rename": refactor.rename_locals, "*ifswap": refactor.swap_if_else, "*nest": refactor.nest_after_early_exit,
-                         "*split": refactor.split_conjunctions, "*mirror": refactor.mirror_comparisons}[v.module]
+                         "*split": refactor.split_conjunctions, "*mirror": refactor.mirror_comparisons,
+                         "*all": refactor.all_of_them}[v.module]
             for path in _glob.glob(os.path.join(tmp, "pyrefact", "*.py")):
                 with open(path, encoding="utf-8") as stream:
                     src = stream.read()
@@ -103,6 +104,7 @@ def run(prop: str, seed: int = 0, only: Optional[str] = None, verbose: bool = Fa
     variants.append(Variant("early-exits-turned-into-nesting", "SILENT", "*nest", "", ""))
     variants.append(Variant("conjunctive-guards-split-into-nested-ifs", "SILENT", "*split", "", ""))
     variants.append(Variant("comparisons-written-the-other-way-round", "SILENT", "*mirror", "", ""))
+    variants.append(Variant("all-five-refactorings-composed", "SILENT", "*all", "", ""))
     if only:
         variants = [v for v in variants if only in v.name]
     random.Random(seed).shuffle(variants)
